@@ -1,0 +1,65 @@
+//! Verification hook for property C01 (only compiled with `--cfg redb_verif`), read-only and
+//! add-only: redb's own Merkle walk and page enumeration from explicitly given roots, so that an
+//! external harness can ask "does the commit named by this slot verify in this file, and which
+//! pages does it consist of". Nothing in here changes behaviour of the crate.
+
+use crate::db::TransactionGuard;
+use crate::tree_store::{BtreeHeader, PageHint, PageResolver, TableTree};
+use crate::{Database, Result, StorageError};
+use alloc::sync::Arc;
+use alloc::vec::Vec;
+
+/// `(region, page_index, page_order)` of a page
+pub type VerifC01Page = (u32, u32, u8);
+
+impl Database {
+    /// The roots the database currently serves (32-byte `BtreeHeader` encodings, as stored in a
+    /// commit slot) and the last committed transaction id
+    pub fn verif_c01_served(&self) -> Result<(Option<[u8; 32]>, Option<[u8; 32]>, u64)> {
+        let mem = self.get_memory();
+        Ok((
+            mem.get_data_root().map(BtreeHeader::to_le_bytes),
+            mem.get_system_root().map(BtreeHeader::to_le_bytes),
+            mem.get_last_committed_transaction_id()?.raw_id(),
+        ))
+    }
+
+    /// Runs redb's checksum verification (the walk `do_repair` uses) and page enumeration (the
+    /// walk `rebuild_allocator_state` uses) from the given roots. A `Corrupted` error of either
+    /// walk is reported as "does not verify", like `primary_verifies` does.
+    pub fn verif_c01_walk(
+        &self,
+        data_root: Option<[u8; 32]>,
+        system_root: Option<[u8; 32]>,
+    ) -> Result<(bool, Vec<VerifC01Page>)> {
+        let mem = self.get_memory();
+        let mut pages = Vec::new();
+        let mut verified = true;
+        for root in [data_root, system_root] {
+            let root = root.map(BtreeHeader::from_le_bytes);
+            let mut walk = || -> Result<bool> {
+                let tree = TableTree::new(
+                    root,
+                    PageHint::None,
+                    Arc::new(TransactionGuard::untracked()),
+                    PageResolver::new(mem.clone()),
+                )?;
+                if !tree.verify_checksums()? {
+                    return Ok(false);
+                }
+                tree.visit_all_pages(|path| {
+                    let p = path.page_number();
+                    pages.push((p.region, p.page_index, p.page_order));
+                    Ok(())
+                })?;
+                Ok(true)
+            };
+            match walk() {
+                Ok(true) => {}
+                Ok(false) | Err(StorageError::Corrupted(_)) => verified = false,
+                Err(err) => return Err(err),
+            }
+        }
+        Ok((verified, pages))
+    }
+}
